@@ -7,6 +7,7 @@ from .. import paths
 from ..core import FUNC, call_attr, calls_in, const, dotted, is_const, kwarg, norm, slice_parts, text, walk_local
 
 EXPLANATION = [
+    'C17.feed-contained: every site that pushes received bytes into the HCI packet parser is inside try/except InvalidPacketError that lets the transport continue, or is a named plain event-loop callback where the escaping exception is only logged.',
     'C17.parser-reset: the push parser consumes what it needs, resets after emission and before raising on an unknown type byte, and contains sink exceptions (same rule as C02.push-parser).',
     'C17.response-routing: the HF reader queues a line as a command response only under `self.pending_command`, which execute_command clears in finally.',
     'C17.contain: every hand-over of a received packet to a sink at the transport boundary is inside try/except Exception (or is a '
@@ -499,7 +500,62 @@ def response_routing(ctx):
         R.check(ok, rule, 'bumble.hfp.HfProtocol.execute_command | pending cleared', 'pending_command is cleared in finally (also on timeout / error)', 'pending_command can stay set after a failed command: unsolicited lines are then swallowed as responses', p.loc(ex))
 
 
+
+# call sites where an exception escaping feed_data is harmless: the caller is a plain event-loop callback
+# (the loop logs the exception, the reader stays registered, the parser has already reset itself)
+FEED_EXEMPT = {
+    'bumble.transport.hci_socket': 'socket reader callback registered with add_reader: the loop logs the exception and calls it again',
+    'bumble.transport.vhci': 'read-pipe protocol callback: the exception is logged by the loop, the pipe stays open',
+    'bumble.transport.udp': 'datagram_received is called outside the datagram transport\'s own try block: logged, transport stays open',
+    'bumble.transport.pyusb': 'invoked through call_soon_threadsafe: logged by the loop',
+}
+
+
+def feed_contained(ctx, rule='C17.feed-contained'):
+    """Wherever received bytes are pushed into the HCI packet parser, an InvalidPacketError cannot kill the transport."""
+    R, p = ctx.r, ctx.p
+    n = 0
+    for mname, m in sorted(p.modules.items()):
+        if not mname.startswith('bumble.transport'):
+            continue
+        for c in ast.walk(m.tree):
+            if not (isinstance(c, ast.Call) and call_attr(c) == 'feed_data'):
+                continue
+            fn = None
+            a = getattr(c, '_parent', None)
+            contained = False
+            prev = c
+            while a is not None:
+                if isinstance(a, ast.Try) and any(prev is s_ for s_ in a.body):
+                    for h in a.handlers:
+                        ts = h.type.elts if isinstance(h.type, ast.Tuple) else ([h.type] if h.type is not None else [])
+                        names = {text(t).split('.')[-1] for t in ts} or {'<bare>'}
+                        # the handler must let the surrounding loop go on (no break / return / raise at its end)
+                        leaves = h.body and isinstance(h.body[-1], (ast.Break, ast.Return, ast.Raise))
+                        if names & {'InvalidPacketError', '<bare>'} and not leaves:
+                            contained = True
+                        elif names & {'Exception', 'BaseException'} and not leaves and not contained:
+                            contained = True
+                        if names & {'InvalidPacketError', 'Exception', 'BaseException', '<bare>'}:
+                            break
+                if isinstance(a, FUNC) and fn is None:
+                    fn = a
+                prev, a = a, getattr(a, '_parent', None)
+            if fn is not None and fn.name == 'feed_data':
+                continue
+            n += 1
+            key = f'{p.qual_of(c)} | parser.feed_data'
+            if contained:
+                R.ok(rule, key, 'inside try/except InvalidPacketError that lets the transport go on', p.loc(c))
+            elif mname in FEED_EXEMPT:
+                R.ok(rule, key, f'uncontained, harmless: {FEED_EXEMPT[mname]}', p.loc(c))
+            else:
+                R.bad(rule, key, 'received bytes are pushed into the packet parser where an InvalidPacketError (unknown packet-type byte) escapes into the transport: the connection / pump is torn down and every later well-formed packet is lost', p.loc(c))
+    R.check(n >= 6, rule, 'bumble.transport | parser feed sites', f'{n} call sites of parser.feed_data examined', f'only {n} feed sites found')
+
+
 RULES = [
+    ('C17.feed-contained', feed_contained),
     ('C17.parser-reset', parser_reset),
     ('C17.response-routing', response_routing),
     ('C17.contain', contain),
